@@ -1303,6 +1303,7 @@ def units(tier, seed):
     # collision chains: roots that differ in exactly one coordinate (epoch / orbit / form of the root), explored one
     # after the other in ONE process, in both orders: anything the library keeps between calls that is keyed without
     # that coordinate makes the later root disagree with its own model
+    first = []
     cdepth = 2 if tier == "quick" else 3
     for base in ("sv_full", "orb_full"):
         for kind, roots in (
@@ -1310,10 +1311,12 @@ def units(tier, seed):
             ("orbit", [dict(base=base, orbit=o) for o in ORBITS]),
             ("form", [dict(base=base, form=f) for f in FORMS_FULL]),
         ):
-            u.append((cfg, dict(part="chain", chain=kind, roots=roots, depth=cdepth, level="full")))
-            u.append((cfg, dict(part="chain", chain=kind + "-reversed", roots=roots[::-1], depth=cdepth, level="full")))
+            first.append((cfg, dict(part="chain", chain=kind, roots=roots, depth=cdepth, level="full")))
+            first.append((cfg, dict(part="chain", chain=kind + "-reversed", roots=roots[::-1], depth=cdepth, level="full")))
     for kind in DYN_KINDS:
-        u.append((cfg, dict(part="dyn", kind=kind, depth=4 if tier == "quick" else 5)))
+        first.append((cfg, dict(part="dyn", kind=kind, depth=4 if tier == "quick" else 5)))
+    # the long units go first so that the pool stays balanced
+    u = first + u
     forms = ["tle", "keplerian_circular", "keplerian_mean", "keplerian_mean_circular", "keplerian_eccentric", "keplerian",
              "spherical", "cartesian", "equinoctial", "cylindrical"]
     for r in ("sv_full", "orb_bare"):
